@@ -96,6 +96,11 @@ def _setup():
             f.update(t=int, f=len, o=Tagged(), n=14)
             super().__init__(fields=f, **kw)
 
+    class Linked(Feedback):
+        """uses a format only some formatter *instances* offer"""
+        category = 'instructor'
+        message_template = "see {a:link} about {b:name}"
+
     class Parent(Feedback):
         category = 'instructor'
         title = 'ParentTitle'
@@ -114,12 +119,15 @@ def _setup():
         def python_expression(self, c):
             return "`%s`" % (c,)
 
+        def link(self, page):
+            return "<link:%s>" % (page,)
+
     g = cmds
     bases = [(Feedback, ()), (CondT, ()), (CondF, ()), (CondX, ()), (MsgX, ()), (Args, (1,)), (Args, (-1,)),
              (g.gently, ('g',)), (g.explain, ('e',)), (g.compliment, ('c',)), (g.give_partial, (.5,)),
              (g.guidance, ('gu',)), (g.set_correct, ()), (g.system_error, ()),
              (initialization_problem, (Location(3), 'v')), (blank_source, ()), (not_enough_sections, (2, 1)),
-             (Parent, ()), (Child, ()), (GrandChild, ()), (AllFmt, ()), (ConstF, ()), (Deep, ())]
+             (Parent, ()), (Child, ()), (GrandChild, ()), (AllFmt, ()), (ConstF, ()), (Deep, ()), (Linked, ())]
     kws = [dict(), dict(message="explicit"), dict(message_template="tpl {a}"), dict(label='lab', title='Ti'),
            dict(activate=False), dict(delay_condition=True), dict(muted=True, score='5%'), dict(location=7),
            dict(activate=False, else_message='else!')]
@@ -357,7 +365,7 @@ def make_single():
     """Every (class, keyword mix) x formatter, one construction each."""
     def body(ctx):
         global TARGET
-        fi = ctx.choose(3, 'formatter')
+        fi = ctx.choose(4, 'formatter')
         idx = ctx.choose(len(CASES), 'case')
         own = ctx.choose(2, 'report')          # the global report | a Report of the caller's own passed as report=
         _reset_everything()
@@ -369,6 +377,12 @@ def make_single():
             cmds.set_formatter(HtmlFormatter, **({'report': TARGET} if own else {}))
         elif fi == 2:
             cmds.set_formatter(MyFmt, **({'report': TARGET} if own else {}))
+        elif fi == 3:
+            # an instance of the same class that offers one more format than its siblings (decided per instance)
+            rep = TARGET if own else MAIN_REPORT
+            inst = MyFmt(rep)
+            inst.available = list(MyFmt.available) + ['link']
+            rep.set_formatter(inst)
         cls, args, kw = CASES[idx]
         import inspect
         try:
@@ -376,7 +390,7 @@ def make_single():
         except TypeError:
             ctx.info['filtered_by_signature'] += 1
             return
-        hist = [('report', 'own' if own else 'global'), ('formatter', ['default', 'html', 'my'][fi]),
+        hist = [('report', 'own' if own else 'global'), ('formatter', ['default', 'html', 'my', 'my-with-link'][fi]),
                 ('construct', cls.__name__, repr(args), repr(kw))]
         ctx.observe(repr(hist))
         ctx.set_sample(hist)
